@@ -151,6 +151,11 @@ func (m c03) Exec(ctx *core.Ctx, cs *core.Case) {
 		return
 	}
 	for i, op := range cs.Ops {
+		if mu != nil {
+			op = respellOp(op, mu.Ten())
+		} else {
+			op = respellOp(op, obs.TakeTen(u))
+		}
 		if !obs.IsSetter(op.Name) {
 			continue
 		}
